@@ -14,8 +14,9 @@
 (*                                                                         *)
 (* Event kinds (all integers are model coordinates, see Prim.tla):         *)
 (*  decl    case, grp, gprop, tmin, tmax, discs (ascending, as the COMPILER *)
-(*          assigned them: `V as repr`), names (aligned; from the           *)
-(*          declaration text: rename string or identifier)                  *)
+(*          assigned them: `V as repr`), idents / renames (aligned; the     *)
+(*          declaration text: identifier as written, rename attribute or    *)
+(*          none -- the NAME is computed here, Abs!NameOf)                   *)
 (*  call    fn, a, s, res, sig        one call of a pure item               *)
 (*  it_new  src, a, b, res, sig       iter() / range(a,b) / names()         *)
 (*  it_op   op, n, res, sig           next next_back nth nth_back len size_hint *)
@@ -59,11 +60,11 @@ BSearch(q, x, lo, hi) == IF lo > hi THEN 0
                               ELSE BSearch(q, x, lo, m - 1)
 StrictlyAscending(q) == \A i \in 1..(Len(q) - 1) : q[i] < q[i + 1]
 
-DeclOK(e) == /\ Len(e.discs) >= 1 /\ Len(e.discs) = Len(e.names)
+DeclOK(e) == /\ Len(e.discs) >= 1 /\ Len(e.discs) = Len(e.idents) /\ Len(e.discs) = Len(e.renames)
              /\ StrictlyAscending(e.discs)
              /\ e.tmin <= e.discs[1] /\ e.discs[Len(e.discs)] <= e.tmax
 DeclOf(e) == LET S == {e.discs[i] : i \in 1..Len(e.discs)} IN
-             [x \in S |-> e.names[BSearch(e.discs, x, 1, Len(e.discs))]]
+             [x \in S |-> LET i == BSearch(e.discs, x, 1, Len(e.discs)) IN NameOf(e.idents[i], e.renames[i])]
 
 \* undefined behaviour made observable: "ub" = the process was killed by one of rustc's UB checks or
 \* by Miri; "invalid" = a produced enum value is not a declared variant.  ("abort" = the process died
